@@ -160,7 +160,15 @@ pub fn ranked_key(s: &Schedule) -> String {
         // hidden state of the transition: the order in which (empty) cycle slots would be reused by new
         // one-vehicle cycles (the stack of reusable empty cycles), probed until a fresh slot is appended
         let mut tr = s.next_day_transition_of(vt).clone();
-        if let Some(t) = s.get_tours().values().next() {
+        // (a tour is needed for the probe; a schedule without any real vehicle borrows one from a scratch spawn)
+        let scratch_tour = if s.get_tours().is_empty() {
+            nw.service_nodes(vt).next().or_else(|| nw.maintenance_nodes().next()).and_then(|n| {
+                std::panic::catch_unwind(std::panic::AssertUnwindSafe(|| s.spawn_vehicle_for_path(vt, vec![n]))).ok().and_then(|r| r.ok()).map(|(s2, v)| s2.tour_of(v).unwrap().clone())
+            })
+        } else {
+            None
+        };
+        if let Some(t) = s.get_tours().values().next().or(scratch_tour.as_ref()) {
             k.push_str("slots");
             for j in 0..8u16 {
                 let before: Vec<usize> = tr.cycles_iter().map(|c| c.len()).collect();
